@@ -411,7 +411,4 @@ def check(run):
                "os / Image.save / ImageLoader replaced by recording fakes in the write/read obligations")
     run.outside("bit-exact read-back through the PNG / FITS / npy codecs (C libraries; not symbolic)")
     from vlib.e2 import run_case
-    for cs in cases(run.tier):
-        if getattr(run, "only", None) and not any(o in cs.name for o in run.only):
-            continue
-        run_case(run, cs)
+    e2.run_cases_parallel(run, __name__)
